@@ -25,6 +25,16 @@ func v4DRConfigs() []v4cfg {
 	}
 }
 
+// long: the core alphabet plus a step of three cleanup ticks, on a pool whose lease time (1 h) is much longer than
+// the time an offer is held (minutes), so that cleanup ticks pass and offers lapse while leases stay valid; the
+// second client has a 7-octet (AX.25) hardware address.
+func v4LongConfigs() []v4cfg {
+	return []v4cfg{
+		{name: "30-long-core", cidr: "10.0.0.0/30", gateway: "10.0.0.1", clients: 2, hostile: 1, core: true, transport: []string{"direct"}, lease: time.Hour, hlens: []int{6, 7}},
+		{name: "29-long-relay82-core", cidr: "10.0.0.0/29", gateway: "10.0.0.1", clients: 2, hostile: 1, core: true, transport: []string{"relay82", "direct"}, lease: time.Hour, hlens: []int{16, 6}},
+	}
+}
+
 // wide: the full alphabet (35 symbols for 2 clients), shallower.
 func v4WideConfigs() []v4cfg {
 	return []v4cfg{
@@ -39,6 +49,9 @@ func v4WalkConfigs() []v4cfg {
 		{name: "w28-4mix", cidr: "10.0.0.0/28", gateway: "10.0.0.1", clients: 4, fine: true, hostile: 1, transport: []string{"mix"}},
 		{name: "w30-3mix", cidr: "10.0.0.0/30", gateway: "10.0.0.1", clients: 3, fine: true, hostile: 1, transport: []string{"mix"}},
 		{name: "w29-gwmid", cidr: "10.0.0.8/29", gateway: "10.0.0.11", clients: 4, fine: true, hostile: 1, transport: []string{"direct", "relay82", "relay", "mix"}},
+		// lease times much longer than the offer hold, clients with 6-, 7-, 16- and 3-octet hardware addresses
+		{name: "w29-long-4mix", cidr: "10.0.0.0/29", gateway: "10.0.0.1", clients: 4, fine: true, hostile: 1, transport: []string{"mix"}, lease: time.Hour, hlens: []int{6, 7, 16, 3}},
+		{name: "w30-long-3", cidr: "10.0.0.0/30", gateway: "10.0.0.1", clients: 3, fine: true, hostile: 1, transport: []string{"direct", "relay82", "relay"}, lease: 20 * time.Minute, hlens: []int{7, 6, 8}},
 	}
 }
 
@@ -52,6 +65,12 @@ func TestV4Exhaustive(t *testing.T) {
 		run.Extra("bfs_v4_"+cfg.name, fmt.Sprintf("depth=%d executed=%d applicable=%d distinct_states=%d", deep, st.executed, st.applicable, st.states))
 	}
 	for _, cfg := range v4DRConfigs() {
+		t0 := time.Now()
+		st := bfs(t, v4factory(cfg), deep, capLvl)
+		t.Logf("bfs %s took %v executed=%d", cfg.name, time.Since(t0), st.executed)
+		run.Extra("bfs_v4_"+cfg.name, fmt.Sprintf("depth=%d executed=%d applicable=%d distinct_states=%d", deep, st.executed, st.applicable, st.states))
+	}
+	for _, cfg := range v4LongConfigs() {
 		t0 := time.Now()
 		st := bfs(t, v4factory(cfg), deep, capLvl)
 		t.Logf("bfs %s took %v executed=%d", cfg.name, time.Since(t0), st.executed)
